@@ -440,6 +440,79 @@ func InfoJSON(info *p4cfg.P4Info) map[string]interface{} {
 	return map[string]interface{}{"tables": tables, "actions": actions, "meters": arrs("meter"), "counters": arrs("counter")}
 }
 
+// P4FaultPlan fails one write of the next request: the K-th Write RPC counted from the moment the request is sent.
+// Mode "rpc": the whole RPC fails with a plain gRPC status and nothing of it is applied; mode "update": update number
+// Upd (clamped to the last one) of that RPC is not applied and reported with the code in the per-update error details.
+type P4FaultPlan struct {
+	K    int
+	Mode string
+	Upd  int
+	Code codes.Code
+	// OnKind, when set, counts only the RPCs whose first update is of that kind (table | meter | counter): K is the
+	// K-th such RPC of the request
+	OnKind string
+	hit    bool
+	base   int
+	seen   map[int]bool
+	target int
+}
+
+func (w *World) armP4Fault() {
+	pl := w.P4Fault
+	if pl == nil || w.P4 == nil {
+		return
+	}
+
+	pl.base = w.P4.RpcCount()
+	pl.seen = map[int]bool{}
+
+	w.P4.SetFault(func(rpc, idx, n int, u *p4.Update) fakep4.Fault {
+		if idx == -1 { // once per RPC: is this the one?
+			if pl.OnKind == "" {
+				if rpc-pl.base == pl.K {
+					pl.target = rpc
+				}
+			} else if fakep4.KindOf(u) == pl.OnKind && !pl.seen[rpc] {
+				pl.seen[rpc] = true
+				if len(pl.seen) == pl.K {
+					pl.target = rpc
+				}
+			}
+
+			if rpc == pl.target && pl.Mode == "rpc" {
+				pl.hit = true
+				return fakep4.Fault{Code: pl.Code, RPC: true}
+			}
+
+			return fakep4.Fault{}
+		}
+
+		if rpc != pl.target || pl.Mode == "rpc" || n == 0 {
+			return fakep4.Fault{}
+		}
+
+		if idx == pl.Upd%n {
+			pl.hit = true
+			return fakep4.Fault{Code: pl.Code}
+		}
+
+		return fakep4.Fault{}
+	})
+}
+
+// disarmP4Fault removes the fault and returns its description for the trace line.
+func (w *World) disarmP4Fault() map[string]interface{} {
+	pl := w.P4Fault
+	if pl == nil || w.P4 == nil {
+		return nil
+	}
+
+	w.P4.SetFault(nil)
+	w.P4Fault = nil
+
+	return map[string]interface{}{"k": pl.K, "mode": pl.Mode, "upd": pl.Upd, "code": int(pl.Code), "hit": pl.hit, "rpcs": w.P4.RpcCount() - pl.base, "onKind": pl.OnKind}
+}
+
 // p4Cmds summarises the update log: number of updates received, number that were not OK.
 func (w *World) p4Counts() (int, int) {
 	us := w.P4.UpdatesSince(0)
